@@ -44,14 +44,16 @@ ASSUMPTIONS = ['values are not modelled (C02-C06 cover them); only structure',
                'invisible in the structure, that decides whether fill_value stays listed on derived arrays; any copying operation clears it)',
                ]
 TECHNIQUE = 'Coq proof (invariant by induction over operation sequences) + vm_compute refutation witnesses + differential correspondence on random operation sequences'
-LEVEL_TEXT = ('Theorems (Props/C01.v, closed under the global context) over a structure-level Gallina model of 14 operations, describing the code '
-              'as repaired by fixes/C01-renameDimensions.patch and fixes/C01-binop-broadcast.patch: every step of every operation other than eval, '
-              'from any well-formed file, raises or returns a well-formed file with no side condition (C01_step_wf_all_but_eval: renameDimensions with '
-              'any pairs, arithmetic with any operand); with eval restricted to shape-preserving expressions the invariant holds over sequences of any '
-              'length (C01_step_wf_partial, C01_run_wf_partial, C01_trace_wf_partial); unlimited flags of surviving dimensions are kept '
-              '(C01_step_unlimited_partial: all 14 operations, given the dictionary invariant C01_keys_nodup_invariant; one side condition, refuted without it: C01_slice_points_refuted); without the eval side condition the statement is refuted by vm_compute witnesses '
-              'replayed on the library (C01_eval_index_refuted, C01_eval_broadcast_refuted, C01_run_wf_refuted) = known finding; the completion clause is proved for applyAlongDimensions on its documented domain (C01_apply_completes). '
-              'Tie H: structure after every step, incl. raises.')
+LEVEL_TEXT = ('Theorems (Props/C01.v, closed under the global context) over a structure-level Gallina model of 14 operations, describing /repo as '
+              'repaired (renameDimensions, arithmetic, applyAlongDimensions, reorderDimensions): every step of every operation other than eval, with any '
+              'arguments, from any well-formed file, raises or returns a well-formed file (C01_step_wf_all_but_eval, full strength); eval is '
+              'characterised exactly - well-formed iff the value has the shape of the dimensions it inherits (C01_eval_wf_iff) - and with that side '
+              'condition the invariant holds for sequences of any length including all intermediate files (C01_step_wf_partial, C01_run_wf_partial, '
+              'C01_trace_wf_partial); without it the statement is refuted by vm_compute witnesses replayed on the library (C01_eval_index_refuted, '
+              'C01_eval_broadcast_refuted, C01_run_wf_refuted) = known finding C01-eval-shape; applyAlongDimensions completes on its documented '
+              'domain (C01_apply_completes); dimension tables stay dictionaries (C01_keys_nodup_invariant); unlimited flags of surviving dimensions are '
+              'kept by all 14 operations (C01_step_unlimited_partial; one side condition, refuted without it: C01_slice_points_refuted). '
+              'Tie H: structure after every step, incl. raises; IOAPI-convention files by the Python oracle.')
 LEVEL_NOTE = 'Trusted: Coq kernel + vm_compute; the correspondence harness; numpy broadcasting/slicing rules as modelled; values not modelled.'
 
 
